@@ -68,6 +68,9 @@ def build_instance(case, oracle, order, probe="interior", opts=None, with_T=True
     kw = dict(verbose=False, Lambda=float(case["lam"]), clear_cache_every_nbr_calc=10 ** 6)
     kw.update({k: v for k, v in (opts or {}).items() if not k.startswith("_")})
     rel = core.AurelCore(fd, **kw)
+    kappa = (opts or {}).get("_kappa", KAPPA)
+    if "_kappa" in (opts or {}):
+        rel.kappa = kappa            # the documented attribute: Einstein's constant in the user's units (e.g. 1 for 8 pi G = 1)
     inputs = F.inputs()
     if (opts or {}).get("_components"):
         # the presentation the Einstein Toolkit reader produces: every tensor handed over by its scalar components
@@ -76,7 +79,7 @@ def build_instance(case, oracle, order, probe="interior", opts=None, with_T=True
         rel.data[k] = v
     if with_T and oracle is not None and not (opts or {}).get("_noT"):
         kt = as_array(oracle["kappaT"], "kappaT")
-        rel.data["Tdown4"] = (kt / KAPPA)[(...,) + (None,) * 3] * np.ones(fd.x.shape)
+        rel.data["Tdown4"] = (kt / kappa)[(...,) + (None,) * 3] * np.ones(fd.x.shape)
     if (opts or {}).get("_moving_fluid"):
         v = np.array([0.25, -0.15, 0.1])[:, None, None, None] * np.ones(fd.x.shape)
         v2 = np.einsum("i...,j...,ij...->...", v, v, rel.data["gammadown3"])
@@ -130,6 +133,8 @@ def compare_keys(job, refine=1):
         keys = list(reversed(keys))
     for kspec in keys:
         code_key, field, factor = kspec[:3]
+        if factor == KAPPA:
+            factor = (opts or {}).get("_kappa", KAPPA)
         slicer = kspec[3] if len(kspec) > 3 else None
         ref = as_array(oracle[field], field)
         if ref is None:
